@@ -140,6 +140,20 @@ impl Baselines {
     }
 }
 
+
+/// Contents and physical layout (partitions -> batches -> rows) of the generated tables, so that a witness can be
+/// replayed without the generator. Tables beyond `max_rows` rows in total are only described by seed + config.
+fn tables_json(ds: &Dataset, max_rows: usize) -> Json {
+    let total: usize = (0..4).map(|i| ds.table(i).iter().flatten().map(|b| b.num_rows()).sum::<usize>()).sum();
+    if total > max_rows {
+        return json!(format!("{total} rows: regenerate with dfv::sched::Dataset::new(dataset_seed, dataset)"));
+    }
+    let dump = |t: &Vec<Vec<arrow::record_batch::RecordBatch>>| -> Json {
+        json!(t.iter().map(|p| p.iter().map(|b| dfv::value::rows_to_json(&dfv::engine::batches_to_rows(std::slice::from_ref(b)))).collect::<Vec<_>>()).collect::<Vec<_>>())
+    };
+    json!({"columns": ["id BIGINT NOT NULL", "k BIGINT NOT NULL", "v BIGINT", "s VARCHAR NOT NULL"], "t1": dump(&ds.t1), "t2": dump(&ds.t2), "ts (declared ORDER BY k, id)": dump(&ds.ts), "tb": dump(&ds.tb)})
+}
+
 fn witness(c: &Case, ds: &Dataset, o: Option<&Obs>, expected: Option<&Vec<Row>>, what: &str) -> Json {
     json!({
         "shape": c.shape.name, "sql": c.shape.sql, "settings": c.shape.settings.iter().map(|(k, v)| format!("{k}={v}")).collect::<Vec<_>>(),
@@ -154,6 +168,7 @@ fn witness(c: &Case, ds: &Dataset, o: Option<&Obs>, expected: Option<&Vec<Row>>,
         })),
         "expected_rows_fault_free": expected.map(|e| if e.len() <= 40 { rows_to_json(e) } else { json!(format!("{} rows", e.len())) }),
         "what": what,
+        "table_contents": tables_json(ds, 2000),
         "replay": format!("c20 C20 --opt only={}", c.shape.name),
     })
 }
